@@ -2,8 +2,11 @@ package main
 
 import (
 	"context"
+	"encoding/json"
 	"fmt"
 	"google.golang.org/protobuf/types/known/anypb"
+	"os"
+	"os/exec"
 	"runtime"
 	"sync"
 	"time"
@@ -86,6 +89,37 @@ func init() {
 		for rp := 0; rp < rep; rp++ {
 			for ci, cl := range cloners {
 				for _, dyn := range []bool{false, true} {
+					if dyn {
+						// ---------- unary with dynamic messages on the caller's side (request and response): the
+						// handler works on generated messages, so both copies cross representations ----------
+						var hReq, hResp *hx.Msg
+						dsvc := &hx.Svc{Unary: func(ctx context.Context, req *hx.Msg) (*hx.Msg, error) {
+							hReq = req
+							hResp = mkMsg(false)
+							return hResp, nil
+						}}
+						dch := (&inprocgrpc.Channel{}).WithCloner(cl.mk())
+						dch.RegisterService(hx.Desc(hx.SvcName), dsvc)
+						dreq := asDyn(mkMsg(false))
+						dreqSnap := snapshot(dreq)
+						dout := asDyn(&hx.Msg{Payload: []byte("old"), Headers: map[string][]byte{"old": []byte("o")}, Count: 77})
+						derr := dch.Invoke(context.Background(), "/verif.Svc/U", dreq, dout)
+						diso, dow := derr == nil && hReq != nil, true
+						if diso {
+							respSnap := snapshot(hResp)
+							dow = sameAs(dout, respSnap)
+							diso = sameAs(hReq, dreqSnap)
+							mutateInPlace(hReq) // the handler changes its request in place
+							diso = diso && sameAs(dreq, dreqSnap)
+							mutateInPlace(dout) // the caller changes the response it received
+							diso = diso && sameAs(hResp, respSnap)
+							s2 := snapshot(dout)
+							mutateInPlace(hResp) // the handler keeps and changes what it returned
+							diso = diso && sameAs(dout, s2)
+						}
+						dd := map[string]interface{}{"cloner": cl.name, "rpc": "unary; the caller's request and response are dynamic messages, the handler's generated ones", "dynamic_messages": true, "isolated": diso, "destination_overwritten": dow, "error": fmt.Sprint(derr)}
+						o.Case("unary_dynamic_caller_"+cl.name, fmt.Sprintf("Iso %d %s true %s %s", ci, hx.Str("unary, dynamic caller"), hx.B(diso), hx.B(dow)), dd)
+					}
 					if dyn && (ci == 1 || ci == 3 || ci == 4) {
 						// Clone of a dynamic message through the codec / copy-func strategies panics (C18 finding F18),
 						// so a stream cannot even send one: nothing to probe here
@@ -291,6 +325,26 @@ func init() {
 				}
 			}
 		}
+		// ---------- the same overwrite probes in a process whose registered "proto" codec does not reset the
+		// destination on Unmarshal (as vtprotobuf's does not): the in-process channel's default cloner copies
+		// messages itself, so a receive still overwrites.  Run in a child process: codec registration is global.
+		if out, err := exec.Command(os.Args[0], "C06codec").Output(); err != nil {
+			o.Violate("the child process with a replaced proto codec failed", map[string]interface{}{"error": err.Error(), "output": string(out)}, nil, nil)
+		} else {
+			var res []struct {
+				Rpc         string `json:"rpc"`
+				Overwritten bool   `json:"destination_overwritten"`
+				Err         string `json:"error"`
+			}
+			json.Unmarshal(out, &res)
+			if len(res) == 0 {
+				o.Violate("the child process with a replaced proto codec reported nothing", map[string]interface{}{"output": string(out)}, nil, nil)
+			}
+			for _, x := range res {
+				d := map[string]interface{}{"cloner": "default", "process": "a codec named proto that merges on Unmarshal is registered", "rpc": x.Rpc, "destination_overwritten": x.Overwritten, "error": x.Err}
+				o.Case("replaced_codec_"+x.Rpc, fmt.Sprintf("Iso 0 %s false %s %s", hx.Str("replaced proto codec: "+x.Rpc), hx.B(x.Err == ""), hx.B(x.Overwritten)), d)
+			}
+		}
 		o.Finding = "finding_case"
 		o.Shard = 100
 	}
@@ -335,4 +389,79 @@ func fieldwiseCopy(out, in interface{}) error {
 	}
 	o.ProtoReflect().SetUnknown(append([]byte(nil), i.ProtoReflect().GetUnknown()...))
 	return nil
+}
+
+// mergingCodec is a "proto" codec whose Unmarshal merges into the destination without resetting it
+type mergingCodec struct{}
+
+func (mergingCodec) Name() string { return "proto" }
+func (mergingCodec) Marshal(v interface{}) ([]byte, error) {
+	return proto.Marshal(protov1.MessageV2(v))
+}
+func (mergingCodec) Unmarshal(data []byte, v interface{}) error {
+	return proto.UnmarshalOptions{Merge: true}.Unmarshal(data, protov1.MessageV2(v))
+}
+
+// c06CodecChild runs in its own process (see the C06 runner) and prints its results as JSON
+func c06CodecChild() {
+	encoding.RegisterCodec(mergingCodec{})
+	type resT struct {
+		Rpc         string `json:"rpc"`
+		Overwritten bool   `json:"destination_overwritten"`
+		Err         string `json:"error"`
+	}
+	var res []resT
+	n := int32(0)
+	svc := &hx.Svc{
+		Unary: func(ctx context.Context, req *hx.Msg) (*hx.Msg, error) {
+			n++
+			return &hx.Msg{Count: n, Headers: map[string][]byte{fmt.Sprint("k", n): {byte(n)}}}, nil
+		},
+		Stream: func(kind string, ss grpc.ServerStream) error {
+			for ss.RecvMsg(&hx.Msg{}) == nil {
+			}
+			for i := int32(1); i <= 3; i++ {
+				if err := ss.SendMsg(&hx.Msg{Count: i, Headers: map[string][]byte{fmt.Sprint("k", i): {byte(i)}}}); err != nil {
+					return err
+				}
+			}
+			return nil
+		},
+	}
+	ch := &inprocgrpc.Channel{}
+	ch.RegisterService(hx.Desc(hx.SvcName), svc)
+	// unary: one destination reused across calls
+	dst := &hx.Msg{Payload: []byte("stale"), Headers: map[string][]byte{"stale": []byte("x")}}
+	ok, es := true, ""
+	for i := int32(1); i <= 2 && es == ""; i++ {
+		if err := ch.Invoke(context.Background(), "/verif.Svc/U", &hx.Msg{}, dst); err != nil {
+			es = err.Error()
+		} else if !proto.Equal(dst, &hx.Msg{Count: i, Headers: map[string][]byte{fmt.Sprint("k", i): {byte(i)}}}) {
+			ok = false
+		}
+	}
+	res = append(res, resT{"unary", ok, es})
+	// stream: one destination reused across receives
+	for _, kind := range []string{"BD", "SS"} {
+		ok, es = true, ""
+		cs, err := ch.NewStream(context.Background(), hx.StreamDescOf(kind), "/verif.Svc/"+kind)
+		if err != nil {
+			es = err.Error()
+		} else {
+			cs.SendMsg(&hx.Msg{})
+			cs.CloseSend()
+			d := &hx.Msg{Payload: []byte("stale"), Trailers: map[string][]byte{"stale": []byte("x")}}
+			for i := int32(1); i <= 3 && es == ""; i++ {
+				if err := cs.RecvMsg(d); err != nil {
+					es = err.Error()
+				} else if !proto.Equal(d, &hx.Msg{Count: i, Headers: map[string][]byte{fmt.Sprint("k", i): {byte(i)}}}) {
+					ok = false
+				}
+			}
+			runtime.KeepAlive(cs)
+		}
+		res = append(res, resT{kind + " stream", ok, es})
+	}
+	b, _ := json.Marshal(res)
+	os.Stdout.Write(b)
 }
